@@ -357,6 +357,8 @@ def apply_instr(op, args, sol, form_inst, used, branch):
         return min(r, c)
     if op == 'mul':
         return val(args[0]) * val(args[1])
+    if op == 'amount':
+        return val(args[0])
     if op == 'subroundup':
         d = val(args[0]) - val(args[1])
         unit = Fraction(args[2])
@@ -393,7 +395,7 @@ def apply_instr(op, args, sol, form_inst, used, branch):
     raise ValueError(f'unknown op {op}')
 
 
-EXACT_OPS = ('add', 'addfloor0', 'addcap0', 'sub', 'subfloor0', 'subroundup', 'smaller', 'larger', 'carry', 'cond', 'blank')
+EXACT_OPS = ('add', 'addfloor0', 'addcap0', 'sub', 'subfloor0', 'subroundup', 'amount', 'smaller', 'larger', 'carry', 'cond', 'blank')
 
 
 # ------------------------------------------------------------------------------------------------------------------
@@ -527,7 +529,8 @@ def run(seed, tier, runs=None):
     scen = {'run': 0, 'complete': 0, 'incomplete': 0, 'exception': {}, 'by_kind': {}, 'second_pass': 0}
     for year in YEARS:
         for kind in KINDS:
-            for idx in range(runs):
+            # kinds whose forms print an amount per filing status (Form 8959) run once per status at least
+            for idx in range(max(runs, 5) if kind in ('highwage', 'everything') else runs):
                 pol, forms, on = mk_scenario(seed, year, kind, idx)
                 # lines with an instruction on schedules the scenario switched on are requested explicitly
                 extra = sorted(f"{r['form']}.{r['line']}" for f in on for r in T.by_form.get((year, f), []))
